@@ -266,8 +266,24 @@ def run_harness(build_dir, mode, lines, timeout=600):
     return out, crashes
 
 
-def check_cases(cases, shard=4000, jobs=None, timeout=900):
-    """cases: list of dicts (NDJSON records for Cases.tla). returns list of indices TLC flags as bad."""
+def check_cases(cases, shard=4000, jobs=None, timeout=900, devnames=()):
+    """cases: list of dicts (NDJSON records for Cases.tla). returns list of indices TLC flags as bad.
+    devnames: known-defect deviations that may explain a case; a case that is bad under the plain specification but
+    accepted with the (open) deviations enabled is not returned, and the deviation names are noted in DEVS_USED."""
+    bad = _check_cases(cases, shard, jobs, timeout, empty_devs_file())
+    if bad and devnames:
+        openset = {k.get('deviation') for k in load_known() if k.get('status') == 'open'}
+        use = [d for d in devnames if d in openset and not os.environ.get('VERIF_NO_DEVS')]
+        if use:
+            sub = [cases[i] for i in bad]
+            still = _check_cases(sub, shard, jobs, timeout, devs_file())
+            if len(still) < len(sub):
+                DEVS_USED.update(use)
+            bad = [bad[j] for j in still]
+    return bad
+
+
+def _check_cases(cases, shard, jobs, timeout, devs):
     jobs = jobs or max(2, NCPU - 2)
     wd = scratch()
     bad = []
@@ -279,7 +295,7 @@ def check_cases(cases, shard=4000, jobs=None, timeout=900):
             with open(path, 'w') as f:
                 for c in shards[k]:
                     f.write(json.dumps(c, separators=(',', ':')) + '\n')
-            rc, out = tlc(os.path.join(wd, 't%04d' % k), 'Cases.tla', 'Cases.cfg', timeout, env={'CASES': path}, workers=1,
+            rc, out = tlc(os.path.join(wd, 't%04d' % k), 'Cases.tla', 'Cases.cfg', timeout, env={'CASES': path, 'VERIF_DEVS': devs}, workers=1,
                           xmx='3g')
             m = re.search(r'"CASES", (\d+)', out)
             if not m or int(m.group(1)) != len(shards[k]) or 'No error has been found' not in out:
